@@ -309,8 +309,11 @@ class TrajectoryCalc:
         # x = horizontal distance down range, y = drop, z = windage
         while zero_finding_error > _cZeroFindingAccuracy and iterations_count < _cMaxIterations:
             # Check height of trajectory at the zero distance (using current self.barrel_elevation)
-            t = self._integrate(shot_info, zero_distance, zero_distance, TrajFlag.NONE)[0]
+            # second row = the trajectory interpolated at zero_distance (the last integration point lies up to one
+            # step beyond it); its height is compared with the sight line at the row's own down-range distance
+            t = self._integrate(shot_info, zero_distance, zero_distance, TrajFlag.RANGE)[1]
             height = t.height >> Distance.Foot
+            height_at_zero = math.tan(self.look_angle) * (t.distance >> Distance.Foot)
             zero_finding_error = math.fabs(height - height_at_zero)
             if zero_finding_error > _cZeroFindingAccuracy:
                 # Adjust barrel elevation to close height at zero distance
